@@ -357,3 +357,63 @@ Definition preset_ok (pmt : bytes -> option bytes) (k : kind) (preset : bytes) :
          \/ contains_semicolon preset = false
          \/ (field_safe preset = true /\ pmt preset <> None)
   end.
+
+(* ---- Go's mime.ParseMediaType, media type part (mime/mediatype.go): base, _, _ :=
+        strings.Cut(v, ";"); mediatype = strings.TrimSpace(strings.ToLower(base));
+        checkMediaTypeDisposition(mediatype). Bytewise (ASCII) model; the parameter parser
+        (consumeMediaParam loop, RFC 2231 continuations, duplicate detection) stays an oracle
+        [params_ok] that sees the text from the first ';' on. ---- *)
+Definition is_ws (c : N) : bool :=     (* unicode.IsSpace on ASCII *)
+  N.eqb c 32 || N.eqb c 9 || N.eqb c 10 || N.eqb c 11 || N.eqb c 12 || N.eqb c 13.
+Definition lower (c : N) : N := if N.leb 65 c && N.leb c 90 then c + 32 else c.
+Fixpoint trim_left_ws (s : bytes) : bytes :=
+  match s with
+  | [] => []
+  | c :: r => if is_ws c then trim_left_ws r else s
+  end.
+Fixpoint trim_right_ws (s : bytes) : bytes :=
+  match s with
+  | [] => []
+  | c :: r => match trim_right_ws r with
+              | [] => if is_ws c then [] else [c]
+              | r' => c :: r'
+              end
+  end.
+Definition trim_space (s : bytes) : bytes := trim_left_ws (trim_right_ws s).
+
+(* isTokenChar: above 0x20, below 0x7f, not a tspecial: parentheses, angle brackets, at,
+   comma, semicolon, colon, backslash, double quote, slash, square brackets, question mark, equals *)
+Definition is_tspecial (c : N) : bool :=
+  existsb (N.eqb c) [40; 41; 60; 62; 64; 44; 59; 58; 92; 34; 47; 91; 93; 63; 61].
+Definition is_token_char (c : N) : bool := N.ltb 32 c && N.ltb c 127 && negb (is_tspecial c).
+
+(* consumeToken: the longest prefix of token characters and the rest *)
+Fixpoint consume_token (s : bytes) : bytes * bytes :=
+  match s with
+  | [] => ([], [])
+  | c :: r => if is_token_char c then let '(t, rest) := consume_token r in (c :: t, rest) else ([], s)
+  end.
+
+(* checkMediaTypeDisposition(s) == nil *)
+Definition media_type_ok (s : bytes) : bool :=
+  let '(typ, rest) := consume_token s in
+  if beq typ [] then false
+  else match rest with
+       | [] => true
+       | c :: rest' =>
+         if N.eqb c 47 then
+           let '(sub, rest'') := consume_token rest' in
+           negb (beq sub []) && beq rest'' []
+         else false
+       end.
+
+Definition go_media_type (base : bytes) : option bytes :=
+  let m := trim_space (map lower base) in
+  if media_type_ok m then Some m else None.
+
+(* ParseMediaType with err == nil *)
+Definition std_pmt (params_ok : bytes -> bool) (v : bytes) : option bytes :=
+  match go_media_type (before_semi v) with
+  | None => None
+  | Some m => if beq (from_semi v) [] || params_ok (from_semi v) then Some m else None
+  end.
